@@ -39,9 +39,17 @@ def find_accumulation(text: T):
     nul_removed = decoded = False
     cur = text
     # peel decode / replace wrappers
-    while cur.op == "call" and cur.a[0].op == "attr" and cur.a[0].a[1] in ("decode", "replace", "strip", "rstrip"):
+    while cur.op == "call" and cur.a[0].op == "attr" and cur.a[0].a[1] in ("decode", "replace", "strip", "rstrip", "translate",
+                                                                          "join"):
+        if cur.a[0].a[1] == "join":
+            # b''.join(<list built by appending the pieces>) is the concatenation of the pieces
+            if cur.a[0].a[0] == const(b"") and len(cur.a[1]) == 1 and not cur.a[2]:
+                cur = _concat_view(cur.a[1][0])
+            break
         if cur.a[0].a[1] == "decode":
             decoded = True
+        if cur.a[0].a[1] == "translate" and cur.a[1][:2] == (const(None), const(b"\x00")) and not cur.a[2]:
+            nul_removed = True          # bytes.translate(None, b'\0') deletes every NUL, like replace(b'\0', b'')
         if cur.a[0].a[1] == "replace" and cur.a[1][:2] == (const(b"\x00"), const(b"")):
             nul_removed = True
         if cur.a[0].a[1] in ("strip", "rstrip") and cur.a[1][:1] == (const(b"\x00"),):
@@ -78,6 +86,17 @@ def find_accumulation(text: T):
                 if _bit_test(c, ev, START_BIT):
                     return ev, (sl.a[1].a[0] if sl.a[1].op == "const" else None), False, nul_removed, decoded
     return None
+
+
+def _concat_view(t: T) -> T:
+    """A list built from [] by append(piece) steps, seen as the bytes it joins to: [] is b'', append is +."""
+    def rule(x: T) -> T:
+        if x.op == "mut" and x.a[1] == "append" and len(x.a[2]) == 1:
+            return T("bin", ("+", x.a[0], x.a[2][0]))
+        if x.op == "list" and not x.a[0]:
+            return const(b"")
+        return x
+    return normal.rewrite(t, rule)
 
 
 def header_words(terms: List[T], ev: T) -> List[int]:
@@ -228,6 +247,33 @@ def check(repo: Repo, run: Run) -> None:
         if uses_bits or joins or via_vnode:
             reassemblers.append((e, d))
     run.floor("R2", "reassembling decoders", len(reassemblers), 3)
+    # R4: a decoder that joins the payloads of its window takes every record of the split text: a condition that selects
+    # among the window's records may only ask for "the same code as the first / last record" (or the code's name) - any
+    # test of a field that differs between the START, continuation and END records of one text (debugid, func_qualifier,
+    # values, timestamp ...) drops chunks
+    n_joins = 0
+    for e, d in reassemblers:
+        seen_j = set()
+        for t in _all_terms(d.rec):
+            for x in sym.walk(normal.accum_to_comp(d.rec, sym.resolve_widens(d.rec, t))):
+                if not (x.op == "comp" and len(x.a[2]) == 1 and x.a[2][0][1] == EVENTS and x not in seen_j
+                        and any(y.op == "attr" and y.a[1] == "data" and y.a[0] == x.a[2][0][0] for y in sym.walk(x.a[1]))):
+                    continue
+                seen_j.add(x)
+                n_joins += 1
+                elemvar, _, conds = x.a[2][0]
+                bad = []
+                for c in conds:
+                    fields_read = {y.a[1] for y in sym.walk(c) if y.op == "attr" and y.a[0] == elemvar}
+                    if not fields_read <= {"eventid"}:
+                        bad.append((sym.pretty(c)[:70], sorted(fields_read - {"eventid"})))
+                run.ob("R4", e.module.name, e.func_name, f"{e.key}: every record of the window contributes its chunk", not bad,
+                       "" if not bad else
+                       f"the chunks are taken only from records where {bad[0][0]}: `{bad[0][1][0]}` differs between the START, "
+                       f"continuation and END records of one text, so part of the text is dropped", line=e.func.lineno,
+                       witness="a text long enough to need a START and an END record")
+    run.analysed["payload_joins"] = n_joins
+    run.floor("R4", "payload joins over the window", n_joins, 1)
     # the NONE action
     from .c04 import action_of
     none_action = action_of(repo, interp, 0)
